@@ -267,6 +267,10 @@ func alphabet() []inv {
 	// a pipeline: equivalent to its commands issued one after the other
 	addM("Pipelined", "pipe", A(),
 		[]any{"SET", "p", "1"}, []any{"INCR", "p"}, []any{"RPUSH", "l", "pp"}, []any{"HSET", "h", "pf", "pv"}, []any{"EXPIRE", "p", 44})
+	// a pipeline in which some commands answer nil / fail while others succeed: every
+	// command keeps its own result
+	addM("Pipelined", "pipe2", A(),
+		[]any{"GET", "nokey"}, []any{"INCR", "p"}, []any{"HGET", "h", "f1"}, []any{"LPOP", "nokey"}, []any{"SET", "p2", "v"}, []any{"INCR", "h"})
 	// blocking pops through a blocking node (enabled only while the list is non-empty:
 	// an empty list would block for real seconds)
 	addM("BLPop", "blpop", A("l"), "LPOP", "l")
